@@ -234,6 +234,19 @@ CLAIMED = {
         note=TB + "Partial: one joining task, no concurrent next_done consumer; asyncio's callback scheduling order, Task.cancel and Semaphore hand-over are modelled facts tied by the per-handle correspondence only.",
         technique="Coq proof (reachable-state invariant by induction over label lists; generic preservation lemma for the joining coroutine; refutation witnesses by vm_compute) + behavioural probe facts + per-handle vm_compute trace correspondence on a single-step event loop",
         ref='6/C09'),
+    'C10': dict(
+        text=("Proof (partial): on the TaskGroup LTS of C09, for EVERY label sequence in which members are spawned running: the "
+              "members consumed by join, then those queued in _done, then those whose _on_done callback is still in the ready "
+              "queue are - without repetition - exactly the non-daemon members in the order in which they finished (exactly once, "
+              "completion order); completed is the first consumed member that counts (object policy: that did not return None); "
+              "a finished member's outcome is never rewritten, the policy is fixed, and only the joining task consumes or sets "
+              "completed. NOT proved, decided by the correspondence and the oracle on real runs only: that the loop leaves "
+              "exactly when the policy says (all / first / first non-None / none, early stop on failure), that the members "
+              "still running are then cancelled, that join raises no member exception, and the result/exception properties. "
+              "Correspondence: as C09 plus the cancellation requests after every handle; oracle computed from the real run alone."),
+        note=TB + "Partial: next_done called by the application between join's iterations, add_task of an already finished task and the retain option are not in the model.",
+        technique="Coq proof (order / exactly-once / first-finisher invariants by induction over label lists, generic preservation lemma for the joining coroutine) + per-handle vm_compute trace correspondence + policy oracle on the real runs",
+        ref='6/C10'),
 }
 
 REASONS = {}
